@@ -42,6 +42,9 @@ class _Res:
 
 def _work(args):
     """Runs in a worker process: one real crawl + its trace turned into a model request."""
+    import multiprocessing as _mp
+    if _mp.current_process().name != 'MainProcess':
+        cc.appsim.quiet_stderr()
     desc, opts, conc, seed = args
     site = cc.Site.from_desc(desc)
     res, events = cc.run_real(site, opts, seed, conc)
